@@ -128,13 +128,13 @@ theorem loop_bin {f m na : Nat} {lhs rhs : Expr} {ts r r' : List Tok} {op : BOp}
 theorem loop_is {f m na : Nat} {lhs : Expr} {ty : String} {r' : List Tok}
     (h1 : ¬ isLaLvl < m) (h2 : isLaLvl ≠ na) :
     loop (f + 1) m na lhs (.kw .is :: .id ty :: r')
-      = loop f m (naOf isRuleLvl isAssoc) (.isop false lhs ty) r' := by
+      = loop f m 0 (.isop false lhs ty) r' := by
   simp [loop, matchBin_is, h1, h2]
 
 theorem loop_isnot {f m na : Nat} {lhs : Expr} {ty : String} {r' : List Tok}
     (h1 : ¬ isLaLvl < m) (h2 : isLaLvl ≠ na) :
     loop (f + 1) m na lhs (.kw .is :: .kw .not :: .id ty :: r')
-      = loop f m (naOf isNotRuleLvl isAssoc) (.isop true lhs ty) r' := by
+      = loop f m 0 (.isop true lhs ty) r' := by
   simp [loop, matchBin_is, h1, h2]
 
 theorem loop_if {f m na : Nat} {lhs c b : Expr} {r r1 r2 : List Tok}
